@@ -506,6 +506,136 @@ Proof.
   intros H. injection H as <-. exists v. now apply encode_json_parse.
 Qed.
 
+(** A Decoder used for several values: every value it hands out is valid
+    JSON denoting the tree parsed for it, and json.Unmarshal is never given a
+    text it rejects. *)
+Theorem decode_step_valid st r st' :
+  decode_step pf ff st = Some (r, st') ->
+  match r with
+  | DOk t => exists v, json_parse t = Some (denote v)
+  | DJsonErr _ => False
+  | DErrs es => es <> []
+  end.
+Proof.
+  unfold decode_step. destruct (parse_value pf _ st) as [[v st1]|]; [|discriminate].
+  destruct (p_errs st1); [|intros H; injection H as <- _; discriminate]. unfold marshal_value.
+  destruct (encode_value ff v) as [t|] eqn:E.
+  - unfold json_valid. rewrite (encode_json_parse v t E). intros H. injection H as <- _.
+    exists v. now apply encode_json_parse.
+  - intros H. injection H as <- _. discriminate.
+Qed.
+
+Theorem decode_stream_valid : forall fuel st acc vs fin,
+  Forall (fun t => exists v, json_parse t = Some (denote v)) acc ->
+  decode_stream pf ff fuel st acc = Some (vs, fin) ->
+  Forall (fun t => exists v, json_parse t = Some (denote v)) vs /\
+  match fin with Some (DJsonErr _) | Some (DOk _) => False | _ => True end.
+Proof.
+  induction fuel as [|f IH]; intros st acc vs fin Hacc H; [discriminate|]. cbn [decode_stream] in H.
+  destruct (more st); [|injection H as <- <-; auto].
+  destruct (decode_step pf ff st) as [[r st']|] eqn:E; [|discriminate].
+  pose proof (decode_step_valid st r st' E) as Hr.
+  destruct r as [t|e|t].
+  - eapply IH; [|exact H]. apply Forall_app. split; [exact Hacc|]. constructor; [exact Hr|constructor].
+  - injection H as <- <-. auto.
+  - contradiction.
+Qed.
+
+(** DecodeSeries with any TypeMaker: every entry it returns carries valid
+    JSON denoting the parsed entry, and the TypeMaker's decoder accepted it. *)
+Theorem series_entries_valid tm es :
+  forall errs res errs' res',
+  Forall (fun nt => exists v acc, json_parse (snd nt) = Some (denote v) /\
+                                  tm (fst nt) = Some acc /\ acc (snd nt) = true) res ->
+  fold_left (series_entry ff tm) es (errs, res) = (errs', res') ->
+  Forall (fun nt => exists v acc, json_parse (snd nt) = Some (denote v) /\
+                                  tm (fst nt) = Some acc /\ acc (snd nt) = true) res'.
+Proof.
+  induction es as [|[name v] es IH]; intros errs res errs' res' Hres H; cbn [fold_left] in H.
+  - injection H as _ <-. exact Hres.
+  - unfold series_entry at 2 in H. destruct (tm name) as [acc|] eqn:Et; [|eapply IH; eauto].
+    destruct (encode_value ff v) as [t|] eqn:E; [|eapply IH; eauto].
+    destruct (acc t) eqn:Ea; [|eapply IH; eauto].
+    eapply IH; [|exact H]. apply Forall_app. split; [exact Hres|]. constructor; [|constructor].
+    exists v, acc. cbn [fst snd]. split; [now apply encode_json_parse|auto].
+Qed.
+
+Theorem decode_series_stream_valid tm s res errs :
+  decode_series_stream pf ff tm s = Some (Some res, errs) ->
+  errs = [] /\
+  Forall (fun nt => exists v acc, json_parse (snd nt) = Some (denote v) /\
+                                  tm (fst nt) = Some acc /\ acc (snd nt) = true) res.
+Proof.
+  unfold decode_series_stream. destruct (parse_series pf _ _ []) as [[es st1]|]; [|discriminate].
+  destruct (p_errs st1); [|discriminate].
+  destruct (fold_left (series_entry ff tm) es ([], [])) as [errs0 res0] eqn:E.
+  destruct errs0; [|discriminate]. intros H. injection H as <- <-. split; [reflexivity|].
+  eapply series_entries_valid; [|exact E]. constructor.
+Qed.
+
+Theorem decode_all_valid input vs fin :
+  decode_all pf ff input = Ok (vs, fin) ->
+  Forall (fun t => exists v, json_parse t = Some (denote v)) vs /\
+  match fin with Some (DJsonErr _) | Some (DOk _) => False | _ => True end.
+Proof.
+  unfold decode_all. destruct (jsonx_stream input) as [s| |]; try discriminate.
+  destruct (decode_stream pf ff _ _ []) as [[vs' fin']|] eqn:E; [|discriminate].
+  intros H. injection H as <- <-. eapply decode_stream_valid; [|exact E]. constructor.
+Qed.
+
+Theorem decode_series_valid tm input res errs :
+  decode_series pf ff tm input = Ok (Some res, errs) ->
+  errs = [] /\
+  Forall (fun nt => exists v acc, json_parse (snd nt) = Some (denote v) /\
+                                  tm (fst nt) = Some acc /\ acc (snd nt) = true) res.
+Proof.
+  unfold decode_series. destruct (jsonx_stream input) as [s| |]; try discriminate.
+  destruct (decode_series_stream pf ff tm s) as [r|] eqn:E; [|discriminate].
+  intros H. injection H as ->. now apply (decode_series_stream_valid tm s).
+Qed.
+
+Lemma add_err_ne acc e : add_err acc e <> [].
+Proof.
+  unfold add_err. destruct (Nat.ltb (length acc) max_errs) eqn:E.
+  - destruct acc; discriminate.
+  - destruct acc; [discriminate|discriminate].
+Qed.
+
+(** All or nothing: a successful DecodeSeries has accepted every entry. *)
+Lemma series_entries_all tm es :
+  forall errs res res',
+  fold_left (series_entry ff tm) es (errs, res) = ([], res') ->
+  errs = [] /\ length res' = (length res + length es)%nat /\
+  Forall (fun e => exists acc t, tm (fst e) = Some acc /\ encode_value ff (snd e) = Some t /\ acc t = true) es.
+Proof.
+  clear ff_json ff_unsigned.
+  induction es as [|[name v] es IH]; intros errs res res' H; cbn [fold_left] in H.
+  - injection H as -> ->. repeat split; [cbn; lia|constructor].
+  - unfold series_entry at 2 in H.
+    assert (Hne : forall l c r0 r1, fold_left (series_entry ff tm) es (add_err l c, r0) = ([], r1) -> False).
+    { intros l c r0 r1 H0. apply IH in H0. destruct H0 as [H0 _]. now apply add_err_ne in H0. }
+    destruct (tm name) as [acc|] eqn:Et; [|now apply Hne in H].
+    destruct (encode_value ff v) as [t|] eqn:E; [|now apply Hne in H].
+    destruct (acc t) eqn:Ea; [|now apply Hne in H].
+    apply IH in H. destruct H as (-> & Hl & Hf). split; [reflexivity|]. split.
+    + rewrite Hl, app_length. cbn. lia.
+    + constructor; [|exact Hf]. exists acc, t. auto.
+Qed.
+
+Theorem decode_series_all_or_nothing tm s res :
+  decode_series_stream pf ff tm s = Some (Some res, []) ->
+  exists es st1, parse_series pf (parse_fuel (p_init s)) (p_init s) [] = Some (es, st1) /\
+    p_errs st1 = [] /\ length res = length es /\
+    Forall (fun e => exists acc t, tm (fst e) = Some acc /\ encode_value ff (snd e) = Some t /\ acc t = true) es.
+Proof.
+  unfold decode_series_stream. destruct (parse_series pf _ _ []) as [[es st1]|]; [|discriminate].
+  destruct (p_errs st1) eqn:Ep; [|discriminate].
+  destruct (fold_left (series_entry ff tm) es ([], [])) as [errs0 res0] eqn:E.
+  destruct errs0; [|discriminate]. intros H. injection H as <-.
+  apply series_entries_all in E. destruct E as (_ & Hl & Hf).
+  exists es, st1. repeat split; auto.
+Qed.
+
 End WithFloat.
 
 (** ** Leaves *)
